@@ -73,7 +73,8 @@ def rec_spec(draw, max_frames=20000):
     if float(int(rate * te)) != rate * te:
         te = 1.0
     return {"rate": rate, "channels": draw(st.integers(1, 3)), "frames": draw(st.sampled_from([100, 1000, 4410, max_frames, max_frames, 777])), "te": te,
-            "subtype": draw(st.sampled_from(["PCM_16", "PCM_16", "PCM_16"] + SUBTYPES)), "gain": draw(st.sampled_from([1.0, 1.75, 4.0]))}
+            "subtype": draw(st.sampled_from(["PCM_16", "PCM_16", "PCM_16"] + SUBTYPES)), "gain": draw(st.sampled_from([1.0, 1.75, 4.0])),
+            "reuse_path": draw(st.sampled_from([None, None, None, "overwrite", "rename"])), "dur_round": draw(st.sampled_from([False, False, True]))}
 
 
 def recording(rs):
@@ -84,7 +85,21 @@ def recording(rs):
 
     path, frames = wav(rs["rate"], rs["channels"], rs["frames"], rs.get("subtype", "PCM_16"), rs.get("gain", 1.0))
     sr = int(rs["rate"] * rs["te"])
-    rec = data.Recording(uuid=str(uuidlib.UUID(int=1)), path=path, duration=rs["frames"] / sr, channels=rs["channels"], samplerate=sr, time_expansion=rs["te"])
+    if rs.get("reuse_path"):
+        # one path that holds another file every time (a file re-recorded / replaced between two loads in the same process)
+        import shutil
+
+        reused = os.path.join(os.path.dirname(path), "reused.wav")
+        if rs["reuse_path"] == "rename":
+            shutil.copyfile(path, reused + ".tmp")
+            os.replace(reused + ".tmp", reused)
+        else:
+            shutil.copyfile(path, reused)
+        path = reused
+    duration = rs["frames"] / sr
+    if rs.get("dur_round") and math.floor(duration * 100) / 100 > 0:
+        duration = math.floor(duration * 100) / 100  # metadata table with the duration cut to two decimals (never longer than the file)
+    rec = data.Recording(uuid=str(uuidlib.UUID(int=1)), path=path, duration=duration, channels=rs["channels"], samplerate=sr, time_expansion=rs["te"])
     return rec, frames, sr
 
 
@@ -194,6 +209,11 @@ def check_clip(spec, ctx):
             i = int(np.argmax(np.abs(t - ideal)))
             ctx.fail(f"frame {i} carries time {t[i]!r}, expected (offset+i)/samplerate = {ideal[i]!r}", spec, float(t[i]), float(ideal[i]), kind="time_axis")
     check_axis(ctx, spec, arr, "time", "load_clip", first_expected=match / sr if n else None, tol_first=1e-6 / sr)
+    if spec["rec"].get("dur_round"):
+        # load_recording lays its time axis out from Recording.duration and refuses metadata that disagree with the file:
+        # stated assumption of that function, not of load_clip
+        ctx.label("load_recording_skipped_rounded_duration")
+        return
     # same frames as load_recording
     full = ctx.call(spec, "load_recording", audio.load_recording, clip.recording, **kw)
     if full.shape != (n_file, spec["rec"]["channels"]):
@@ -216,6 +236,7 @@ def check_clip(spec, ctx):
 @st.composite
 def derive_case(draw):
     rs = draw(rec_spec(max_frames=20000))
+    rs["dur_round"] = False  # the derived chains start from load_recording as well, which needs metadata that agree with the file
     sr = int(rs["rate"] * rs["te"])
     n = rs["frames"]
     a = draw(st.integers(0, n // 2))
